@@ -12,7 +12,7 @@ CONSTANTS
   Mbox = {"inbox", "b"}
   MaxId = 100000
   StoreFlags = {}
-  Acts = {"Deliver", "Select", "Noop", "Idle", "Store", "Fetch", "Expunge", "Append", "Copy", "Move"}
+  Acts = {"Deliver", "Select", "Noop", "Idle", "Store", "Fetch", "Expunge", "Append", "Copy", "Move", "Search"}
   MaxPend = 100
   Modes = {}
   Silents = {}
